@@ -95,12 +95,12 @@ def run(ctx, rep: Report, deep: bool = False):
     full = deep or not ctx.quick
     rep.rule = (
         "generated AKAI volumes of 2-5 sample files; for each entry: every type-byte value (256), every value of each of the other 23 byte positions "
-        "(thorough: all 256; quick: 12 values incl. 0, 0xff, valid/invalid AKAI character codes), plus random multi-byte damage confined to the entry; "
+        "(thorough: all 256 on the first volume and every third value on two more, 12 values for the four padding bytes; quick: 12 values incl. 0, 0xff, valid/invalid AKAI character codes), plus random multi-byte damage confined to the entry; "
         "oracle: every other entry still listed under its name and exported byte-identically; a sample of damaged images also goes through the Lean model; "
         "distinct = (volume, entry, byte position, value); non-trivial = damage that changes the byte"
     )
     cases = []
-    nvol = 2 if not full else 6
+    nvol = 2 if not full else 3
     for vi in range(nvol):
         disc = base_disc(rng, rng.randint(2, 5))
         img, info = G.serialize(disc, rng)
@@ -117,8 +117,8 @@ def run(ctx, rep: Report, deep: bool = False):
             for pos in range(ENTRY):
                 if pos == 16:
                     vals = range(256)
-                elif full:
-                    vals = range(256)
+                elif full and (pos < 12 or pos >= 17):
+                    vals = range(256) if vi == 0 else range(vi, 256, 3)  # every value on the first volume, a third on the others
                 else:
                     vals = sorted({0, 1, 0x0A, 0x28, 0x29, 0x47, 0x7F, 0xD7, 0xFF, rng.randrange(256), rng.randrange(256), rng.randrange(256)})
                 for val in vals:
